@@ -27,7 +27,7 @@ func init() {
 			{ID: "C05.d", Title: "SQLITE-SERIALISED", Template: "T3", MinInst: 4,
 				Rule: "SQLiteBackend.conn is used only with SQLiteBackend.mu held, including the Changes() read after Exec",
 				Run: func(c *Ctx) {
-					c.checkLockDiscipline(Protected{pkgCtlog, "SQLiteBackend", "mu", []string{"conn"}}, nil, true)
+					c.checkLockDiscipline(Protected{Pkg: pkgCtlog, Type: "SQLiteBackend", Mutex: "mu", Fields: []string{"conn"}, Exclusive: true}, nil, true)
 				}},
 			{ID: "C05.e", Title: "READ-YOUR-WRITES", Template: "T5", MinInst: 3,
 				Rule: "PRAGMA synchronous = FULL is executed on the connection stored in the backend; DynamoDB GetItem sets ConsistentRead true; the ETag GetObject sends no-cache and the CAS read header", Run: c05e},
